@@ -32,6 +32,9 @@ let oracle_c15 (line : string) : string =
           if not ok then bad := Some (Printf.sprintf "record %d: cursor is not where cursor_spec puts it" k)
           else if not (c15_links_kept_checkb (parse_tree (field r "U")) t) then
             bad := Some (Printf.sprintf "record %d: the flush changed a focus link or a focused flag" k)
+        end else if r.kind = "SH" then begin
+          if not (c15_show_checkb (zi (int_of_string (field r "W"))) (parse_tree (field r "U")) (parse_tree (field r "T"))) then
+            bad := Some (Printf.sprintf "record %d: show did not leave the focus links as demanded (the window becomes its parent's focused child only if the parent has none and the window holds or contains the focus)" k)
         end else if r.kind = "TF" then begin
           let t = parse_tree (field r "T") in
           match !targets with
